@@ -614,3 +614,5 @@ def run(res, facts, tier):
     r9_entry_wrappers(res, facts)
     from . import c02_expr
     c02_expr.run_c11_rule(res, facts, tier)
+    from . import c11_nodeconv
+    c11_nodeconv.run_rule(res, facts, tier)
